@@ -582,6 +582,99 @@ def rule_block_axis(repo: Repo, rep: Report, classes: List[ClassInfo]) -> int:
     return n
 
 
+def rule_row_carry(repo: Repo, rep: Report, classes: List[ClassInfo]) -> int:
+    """In a loop over the rows (words) of a batch a local that is assigned only on some paths of the body and read later
+    in the body keeps, on the other paths, the value it got for a *previous* row: the result for a row then depends on the
+    rows before it.  (Accumulators - subscript stores, `+=` - are what such loops are for and are not meant.)"""
+    n = 0
+
+    def row_loop(lp: ast.For) -> bool:
+        it = lp.iter
+        if not (isinstance(it, ast.Call) and isinstance(it.func, ast.Name) and it.func.id == "range" and it.args):
+            return False
+        t = unparse(it.args[-1] if len(it.args) <= 2 else it.args[1])
+        return any(k in t for k in ("batch", "shape[0]", "size(0)", "num_words", "n_words", "num_blocks", "len("))
+
+    for ci in classes:
+        for m, fi in ci.methods.items():
+            for lp in [x for x in ast.walk(fi.node) if isinstance(x, ast.For) and row_loop(x)]:
+                n += 1
+                top_assigned = set()
+                for st in lp.body:
+                    if isinstance(st, (ast.Assign, ast.AnnAssign)):
+                        for t in (st.targets if isinstance(st, ast.Assign) else [st.target]):
+                            for x in ast.walk(t):
+                                if isinstance(x, ast.Name) and isinstance(x.ctx, ast.Store) and not any(isinstance(a, ast.Subscript) for a in [t]):
+                                    top_assigned.add(x.id)
+                    elif isinstance(st, (ast.For, ast.With)):
+                        for x in ast.walk(st.target if isinstance(st, ast.For) else st):
+                            if isinstance(x, ast.Name) and isinstance(x.ctx, ast.Store):
+                                top_assigned.add(x.id)
+                cond: Dict[str, ast.AST] = {}
+                for st in lp.body:
+                    if isinstance(st, (ast.If, ast.Try)):
+                        arms = [st.body, st.orelse] if isinstance(st, ast.If) else [st.body]
+                        names_per_arm = []
+                        for arm in arms:
+                            names_ = set()
+                            for s2 in arm:
+                                for x in ast.walk(s2):
+                                    if isinstance(x, ast.Assign):
+                                        for t in x.targets:
+                                            if isinstance(t, ast.Name):
+                                                names_.add(t.id)
+                            names_per_arm.append(names_)
+                        every = set.intersection(*names_per_arm) if names_per_arm and all(arms) else set()
+                        for nm in set.union(*names_per_arm) - every:
+                            exits = any(isinstance(x, (ast.Continue, ast.Break, ast.Return, ast.Raise)) for arm in arms for s2 in arm for x in ast.walk(s2))
+                            if not exits:
+                                cond.setdefault(nm, st)
+                for nm, st in cond.items():
+                    if nm in top_assigned:
+                        continue
+                    later = lp.body[lp.body.index(st) + 1 :]
+                    read = next((x for s2 in later for x in ast.walk(s2) if isinstance(x, ast.Name) and x.id == nm and isinstance(x.ctx, ast.Load)), None)
+                    if read is not None:
+                        rep.violation("ROW-CARRY", fi, f"{ci.name}.{m}: `{nm}` assigned only under `{unparse(st).splitlines()[0][:70]}`", f"in the per-row loop `for {unparse(lp.target)} in {unparse(lp.iter)}` the value of `{nm}` read at line {read.lineno} is, on the other path, the one left by a previous row: a row's result depends on the rows processed before it (batch result differs from the stack of single results, and depends on the order)", node=st)
+    rep.ok("ROW-CARRY", "kaira::components", f"{n} per-row loops scanned for locals carried from one row to the next", "none found", nontrivial=False)
+    return n + 1
+
+
+def rule_subset_index(repo: Repo, rep: Report) -> int:
+    """The polar BP decoder keeps working on the batch members that have not converged: `stop_criterion` is handed the
+    global indices of the active subset and must return the *global* indices of those that still fail (positions inside
+    the subset would make the decoder go on with other members and freeze unconverged ones - a member's result then depends
+    on its neighbours and on the order).  The function body is evaluated on sample subsets (own arithmetic)."""
+    from ..constfold import Unfoldable
+    from ..frag import FragRaise, FragReturn, run_fragment
+
+    fi = repo.func("kaira/models/fec/utils.py", "stop_criterion")
+    G = [[1, 0], [1, 1]]
+    samples = [
+        ([[1, 1], [0, 1], [0, 0]], [[0, 1], [1, 1], [1, 0]], [3, 5, 9], [9]),
+        ([[0, 0], [0, 1], [1, 1]], [[0, 1], [1, 1], [0, 1]], [2, 4, 7], [2]),
+        ([[1, 0], [1, 0]], [[0, 1], [1, 1]], [6, 8], [6, 8]),
+        ([[1, 1]], [[0, 1]], [5], []),
+    ]
+    what = "stop_criterion: indices of the members that still fail"
+    for x, u, act, want in samples:
+        try:
+            run_fragment(fi.body, {"x": x, "u": u, "code_gm": G, "not_satisfied": act})
+            rep.undecided("SUBSET-INDEX", fi, what, "no value returned")
+            return 1
+        except FragReturn as r:
+            got = r.value
+        except (Unfoldable, FragRaise, TypeError) as exc:
+            rep.undecided("SUBSET-INDEX", fi, what, f"not evaluable ({exc})")
+            return 1
+        flat = [y for t in got for y in (t if isinstance(t, list) else [t])] if isinstance(got, list) else got
+        if flat != want:
+            rep.violation("SUBSET-INDEX", fi, what, f"for the active members {act} of which {want} still fail the function returns {flat}: positions inside the active subset instead of batch indices - after the first compaction the decoder iterates on the wrong members", node=fi.node)
+            return 1
+    rep.ok("SUBSET-INDEX", fi, what, f"global batch indices of the failing members on {len(samples)} sample subsets", node=fi.node)
+    return 1
+
+
 def rule_zero_path(repo: Repo, rep: Report) -> int:
     """batched vs single-item zero-signal test of the power constraints uses the same quantity."""
     from .c08 import CBScaling, PW, cfg
@@ -627,6 +720,8 @@ def run(repo: Repo, rep: Report, tier: str) -> None:
     n += rule_zero_path(repo, rep)
     n += rule_index_broadcast(repo, rep, classes)
     n += rule_block_axis(repo, rep, classes)
+    n += rule_row_carry(repo, rep, classes)
+    n += rule_subset_index(repo, rep)
     rep.floor("C20 rule instances", n, 85)
     rep.decided_clauses += [
         "no write through an alias of an input tensor in any component's forward / inverse / syndrome",
